@@ -7,7 +7,8 @@
 From Coq Require Import List NArith ZArith Bool.
 From GoGit Require Import Base.Out Model.PktLine Model.C35Utf8 Model.Packp Model.PackpV2
   Proofs.C34Pkt Proofs.C35Base Proofs.C35Msgs Proofs.C35Caps Proofs.C35Adv Proofs.C35Upd Proofs.C35Ul
-  Proofs.C35V2Base Proofs.C35V2Caps Proofs.C35V2Fetch Proofs.C35V2Ls Proofs.C35V2Out.
+  Proofs.C35V2Base Proofs.C35V2Caps Proofs.C35V2Fetch Proofs.C35V2Ls Proofs.C35V2Out
+  Spec.GitProto Proofs.C35Git Proofs.C35GitV2.
 Import ListNotations.
 
 (* capability.List: DecodeList (l.String()) = l for lists with distinct,
@@ -226,6 +227,54 @@ Theorem C35_fetchout_position : forall o ps s t r, fetchout_ok o = true -> fo_pa
   exists ls', fetchout_decode (map fst (rl_all r)) = inl (o, ls') /\ rl_rest (rlen r) (rl_all r) ls' = List.length t.
 Proof. exact fetchout_position. Qed.
 Print Assumptions C35_fetchout_position.
+
+(* ================= go-git's encodings in git's grammars =================
+   S = Spec/GitProto.v: the pkt-level grammars of git's protocol documents, one
+   parser per message, validated against git 2.39.5 on every run (suite "git").
+   git_<msg> (Encode m) = Some (what git learns) — and that is m.
+   hexsz: the hex length of the conversation's object format; [sized hexsz h]:
+   h is a valid id of that format. *)
+Theorem C35_shupd_git : forall hexsz m,
+  forallb (sized hexsz) (su_shallows m) = true -> forallb (sized hexsz) (su_unshallows m) = true ->
+  git_shupd hexsz (su_encode m) false [] [] = Some (su_shallows m, su_unshallows m).
+Proof. exact git_shupd_enc. Qed.
+Print Assumptions C35_shupd_git.
+
+Theorem C35_uphav_git : forall hexsz m, forallb (sized hexsz) (uh_haves m) = true ->
+  git_haves hexsz (uh_encode m) [] = Some (uh_haves (uh_canon m), uh_done m).
+Proof. exact git_haves_enc. Qed.
+Print Assumptions C35_uphav_git.
+
+Theorem C35_srvresp_git : forall hexsz acks, sr_ok acks = true -> forallb (fun a => sized hexsz (fst a)) acks = true ->
+  git_srvresp hexsz (sr_encode acks) [] = Some acks.
+Proof. exact git_srvresp_enc. Qed.
+Print Assumptions C35_srvresp_git.
+
+(* reference names non-empty and free of blanks (report_ok) *)
+Theorem C35_report_git : forall m, report_ok m = true -> git_report (rs_encode m) = Some (rs_unpack m, rs_cmds m).
+Proof. exact git_report_enc. Qed.
+Print Assumptions C35_report_git.
+
+(* options that do not end in LF (git strips one) *)
+Theorem C35_pushopts_git : forall opts ps, po_encode opts = Some ps ->
+  forallb (fun o => negb (N.eqb NL (last o 0%N))) opts = true -> git_pushopts ps [] = Some opts.
+Proof.
+  intros opts ps He H. unfold po_encode in He.
+  destruct (forallb (fun o => graphic_str o && (zlen o <=? Gen.C34.pktline_MaxPayloadSize)%Z) opts); [|discriminate].
+  injection He as <-. now rewrite (git_pushopts_lines opts [] H).
+Qed.
+Print Assumptions C35_pushopts_git.
+
+(* v2: git reads each capability line as key[=value]; the values of a key are one blank-separated value *)
+Theorem C35_capadv_git : forall l ps, caps2_ok l = true -> capadv_encode 2 l = Some ps -> git_capadv ps = Some (map cap2_abs l).
+Proof. exact git_capadv_enc. Qed.
+Print Assumptions C35_capadv_git.
+
+(* v2 ls-refs output: per line the name, the oid (none for "unborn"), the symref target, the peeled oid *)
+Theorem C35_lsout_git : forall hexsz refs, forallb lsref_ok refs = true -> forallb (lsref_sized hexsz) refs = true ->
+  git_lsout hexsz (lsout_encode refs ++ [PFlush]) [] = Some (flat_map (gls_of refs) refs).
+Proof. exact git_lsout_enc. Qed.
+Print Assumptions C35_lsout_git.
 
 (* ---------- non-vacuity ---------- *)
 From Coq Require Import String.
